@@ -262,6 +262,36 @@ pub fn run(name: &str) -> Option<bool> {
             );
             matches!(out, Outcome::Completion(t) if t == "x\ny\n")
         }
+        // C05: an adjacent command that succeeds on its narrowed retry left the window of the
+        // failed attempt as the scope; with an already consumed item further right everything
+        // behind that window was silently dropped
+        "adjacent_command_drops_items" => {
+            let cmd = |id: Id, name: &str, inner: Spec| {
+                Spec::Cmd(Box::new(CmdSpec {
+                    id,
+                    names: vec![name.to_string()],
+                    shorts: vec![],
+                    help: None,
+                    adjacent: true,
+                    opts: OptSpec::plain(Spec::Seq(vec![inner])),
+                }))
+            };
+            let chain = Spec::wrap(
+                W::Many { catch: false },
+                6,
+                Spec::Alt(vec![
+                    cmd(2, "eat", pos(3, Ty::Str)),
+                    cmd(4, "drink", item(5, Names::long("coffee"), Leaf::Switch)),
+                ]),
+            );
+            let o = OptSpec::plain(Spec::Seq(vec![
+                item(1, both('p', "premium"), Leaf::Switch),
+                chain,
+            ]));
+            let p = build_options(&o);
+            crate::outcome::run(&p, &bytes(&["eat", "Fastfood", "drink", "--premium", "bogus"]))
+                .is_value()
+        }
         _ => return None,
     })
 }
